@@ -378,7 +378,9 @@ def cli_vectors(quick):
             ['--version', 'M2', '--mode', 'byte'], ['--pattern', '8'], ['--pattern', '3', '--micro'], ['--mode', 'kanji'], ['--mode', 'hanzi', '--micro'],
             ['--encoding', 'utf-8'], ['--encoding', 'foo'], ['--seq'], ['--seq', '--version', '1'], ['--seq', '--symbol-count', '17'],
             ['--seq', '--symbol-count', '2'], ['--seq', '--version', 'M1'], ['--error', 'x'], ['--version', '1', '--mode', 'numeric'],
-            ['--scale', '0'], ['--border', '-1'], ['--dark', 'nope'], ['--scale', '2.5', '--border', '0']]
+            ['--scale', '0'], ['--border', '-1'], ['--dark', 'nope'], ['--scale', '2.5', '--border', '0'],
+            ['--version', 'm3'], ['--version', 'm1'], ['--version', 'm4', '--error', 'q'], ['--error', 'h', '--version', '2'], ['--mode', 'BYTE'],
+            ['--version', 'm2', '--micro'], ['--error', 'l', '--micro'], ['--error', 'L', '--micro']]
     for ci, c in enumerate(contents):
         for oi, o in enumerate(opts):
             if c == '' and oi > 3:
@@ -427,6 +429,44 @@ def cli_case(vec, acc, subproc=True):
                 lib_exc = e
             except Exception as e:
                 lib_exc = e
+        # alternative spellings on the command line must behave like the canonical spelling
+        canon = [{'m1': 'M1', 'm2': 'M2', 'm3': 'M3', 'm4': 'M4', 'l': 'L', 'q': 'Q', 'h': 'H', 'BYTE': 'byte'}.get(a, a) if i and argv[i - 1] in
+                 ('--version', '--error', '--mode') else a for i, a in enumerate(argv)]
+        if canon != argv:
+            outp2 = None
+            if outp is not None:
+                outp2 = os.path.join(tmp, 'canon.' + kind)
+                canon[canon.index(outp)] = outp2
+            r2 = subprocess.run([sys.executable, '-m', 'segno.cli'] + canon, capture_output=True, text=True, env=env, timeout=120)
+            same = r2.returncode == rc and r2.stdout == outtxt
+            if outp is not None and same:
+                from .c12 import mask_ts
+                b1 = open(outp, 'rb').read() if os.path.exists(outp) else None
+                b2 = open(outp2, 'rb').read() if os.path.exists(outp2) else None
+                same = (b1 is None) == (b2 is None) and (b1 is None or mask_ts(b1) == mask_ts(b2))
+            acc.count('cli_spellings')
+            if not same:
+                acc.violation('cli-spelling', 'segno %r behaves differently from the canonical spelling %r (status %d vs %d; stderr %r)'
+                              % (argv, canon, rc, r2.returncode, err[-100:]), case)
+            # and the library itself accepts the spelling: the request must not be refused because of it
+            try:
+                kwv = {}
+                if '--version' in argv:
+                    kwv['version'] = argv[argv.index('--version') + 1]
+                if '--error' in argv:
+                    kwv['error'] = argv[argv.index('--error') + 1]
+                if '--mode' in argv:
+                    kwv['mode'] = argv[argv.index('--mode') + 1]
+                if '--micro' in argv:
+                    kwv['micro'] = True
+                elif not str(kwv.get('version', '')).upper().startswith('M'):
+                    kwv['micro'] = False
+                segno.make(content, **kwv)
+                api_ok = True
+            except ValueError:
+                api_ok = False
+            if api_ok and rc != 0:
+                acc.violation('cli-spelling', 'segno %r fails (status %d, %r) although segno.make(%r, **%r) succeeds' % (argv, rc, err[-100:], content, kwv), case)
         acc.eval(case, nontrivial=True, outcome=(rc, lib_exc is not None, parsed), state=('cli', rc, type(lib_exc).__name__, kind))
         acc.count('cli_runs')
         acc.add('cli_status', rc)
